@@ -144,7 +144,7 @@ func (propC07) Check(c *Case) (*Violation, *RunInfo) {
 		sim := es.sim()
 		hist := Exec(c.Recipe, newEnv(sim))
 		ri.Steps += sim.Steps
-		ri.Frozen = append(ri.Frozen, ExecSpec{Mode: "replay", Perms: sim.Log})
+		ri.Frozen = append(ri.Frozen, frozenSpec(sim))
 		if len(sim.Log) > 0 {
 			nonIdent = true
 		}
